@@ -318,6 +318,21 @@ func c16Query(c *core.Ctx) {
 }
 
 // c16Latest: getLatestL1InfoTreeIndex (where the FEP downloader resumes its scan) is the greatest index recorded.
+// c16Stateless: LastGERSync answers every query from the store: none of its fields is written after construction.
+func c16Stateless(c *core.Ctx) {
+	const rule = "C16-stateless"
+	n := c.Named("lastgersync", "LastGERSync")
+	if n == nil {
+		c.Undecide(rule, "anchor lastgersync.LastGERSync", 0, "type does not resolve")
+		return
+	}
+	var fields []string
+	for _, fs := range fieldStoresOf(c, n) {
+		fields = append(fields, fs.field+"@"+core.ShortFn(fs.fn))
+	}
+	c.Decide(len(fields) == 0, rule, "lastgersync.LastGERSync#stateless", 0, fmt.Sprintf("no field of the façade is written after construction (found: %v)", fields))
+}
+
 func c16Latest(c *core.Ctx) {
 	checkOrdered(c, "C16-latest", []orderedSpec{
 		{"lastgersync", "processor", "getLatestL1InfoTreeIndex", "IMPORTED_GLOBAL_EXIT_ROOT", "DESC", nil, [][]string{{"L1_INFO_TREE_INDEX"}}, nil},
@@ -339,6 +354,8 @@ func init() {
 					ruleTxThrough(c, "C16-tx", fn)
 				}
 			}, Text: "[TX]+[ERR] (shared with C07) GER insert/delete go through the block's tx and their failures abort the block"},
+			{ID: "C16-watch", Floor: 1, Run: func(c *core.Ctx) { watchListRule(c, "C16-watch", map[string]bool{"lastgersync.newDownloaderPP": true}) }, Text: "(shared with C05-watch) only events of the configured GER manager are indexed"},
+			{ID: "C16-stateless", Floor: 1, Run: c16Stateless, Text: "[WHO] the façade keeps no answers between calls (a cache would survive removals and reorgs)"},
 			{ID: "C16-latest", Floor: 1, Run: c16Latest, Text: "SQL: the resume index of the FEP scan is the greatest imported index"},
 			{ID: "C16-query", Floor: 3, Run: c16Query, Text: "SQL tokens: min index >= $1; façade pass-through; PK(block_num)"},
 		},
